@@ -36,6 +36,7 @@ structure HState where
   active : List Region := []   -- aliases being processed, innermost first
   st : PState := .cmd0
   toks : List Kind := []
+  hd : Pending := []
   tb : Bool := false           -- the trailing run of blanks read so far holds the end of a blank-ending value
   deriving Repr
 
@@ -86,20 +87,23 @@ def hstep (T : Table) (s : HState) : Option HState :=
   | c0 :: tl =>
     let tok := lexTokC (c0 :: tl)
     let n := tok.len - 1
-    let after := tl.drop n
     let d := trans s.st tok.kind
     let blank := flagRun s.active true k s.tb s.rest
     match hcand T s with
     | some a =>
+      let after := tl.drop n
       let here := activeAt s.active (tl.length + 1)
       let enclosing := here.map fun x => { x with endRem := min x.endRem after.length }
       some { out := skipped.reverse ++ s.out, rest := a.value ++ after,
              active := { name := a.name, endRem := after.length, eb := endsBlank a.value } :: enclosing,
-             st := d.onSub, toks := s.toks, tb := blank }
+             st := d.onSub, toks := s.toks, hd := s.hd, tb := blank }
     | none =>
-      some { out := (tl.take n).reverse ++ c0 :: (skipped.reverse ++ s.out), rest := after,
-             active := activeAt s.active after.length, st := d.onTake, toks := tok.kind :: s.toks,
-             tb := flagRun s.active false (n + 1) blank (c0 :: tl) }
+      let m := spanLenC s.hd s.st (c0 :: tl)
+      let after := tl.drop m
+      some { out := (tl.take m).reverse ++ c0 :: (skipped.reverse ++ s.out), rest := after,
+             active := activeAt s.active after.length, st := d.onTake,
+             toks := tokOutC s.hd s.st (c0 :: tl) ++ s.toks, hd := hdNextC s.hd s.st (c0 :: tl),
+             tb := flagRun s.active false (m + 1) blank (c0 :: tl) }
 
 def hrun (T : Table) : Nat → HState → HState
   | 0, s => s
